@@ -105,7 +105,7 @@ fn rewrite_try(src: &str, parenthesised: bool) -> Option<String> {
 
 /// Is there a `#[doc ..]` attribute whose closing bracket is followed by another token on the
 /// same line?
-fn doc_attr_shares_line(src: &str) -> bool {
+pub fn doc_attr_shares_line(src: &str) -> bool {
     let toks = crate::lex::significant(src);
     let mut i = 0;
     while i + 2 < toks.len() {
